@@ -74,7 +74,19 @@ thread_local! {
     static DEPTH: RefCell<u32> = const { RefCell::new(0) };
 }
 
-static FN_CACHE: Mutex<Option<HashMap<(String, u32), String>>> = Mutex::new(None);
+/// resolved enclosing function per distinct raw call chain (hash of the return addresses)
+static FN_CACHE: Mutex<Option<HashMap<u64, String>>> = Mutex::new(None);
+
+fn call_chain_key() -> u64 {
+    let mut buf = [std::ptr::null_mut::<libc::c_void>(); 48];
+    let n = unsafe { libc::backtrace(buf.as_mut_ptr(), buf.len() as libc::c_int) } as usize;
+    let mut h: u64 = 0xcbf29ce484222325;
+    for p in buf.iter().take(n) {
+        h ^= *p as usize as u64;
+        h = h.wrapping_mul(0x100000001b3);
+    }
+    h
+}
 static INSTALL: Once = Once::new();
 
 fn is_subject_symbol(sym: &str) -> bool {
@@ -145,7 +157,7 @@ pub fn install() {
                 // not inside a `catch` region: a bug of the harness itself, keep it visible
                 eprintln!("harness panic at {file}:{line}: {message}");
             }
-            let key = (file.clone(), line);
+            let key = call_chain_key();
             let cached = {
                 let guard = FN_CACHE.lock().unwrap_or_else(|e| e.into_inner());
                 guard.as_ref().and_then(|m| m.get(&key).cloned())
